@@ -77,6 +77,7 @@ class Check:
     COMPONENTS_STUB: list[str] = []
     QUICK_SECONDS = 40.0
     THOROUGH_SECONDS = 600.0
+    USES_TEMPLATE_DB = False  # batch runner migrates one template database before forking
     RUN_TIMEOUT = 120.0  # wall seconds before a single run counts as hung
     SHRINK_TESTS = 250
     SHRINK_SECONDS = 60.0
@@ -130,6 +131,9 @@ def scratch_root() -> str:
 # ---------------------------------------------------------------------------
 
 
+MIN_RUNS_PER_WORKER = 2
+
+
 def _worker(
     check_cls,
     tier: str,
@@ -166,8 +170,8 @@ def _worker(
         while True:
             if max_runs is not None and idx >= max_runs:
                 break
-            if max_runs is None and time.time() >= deadline:
-                break
+            if max_runs is None and time.time() >= deadline and summary["runs"] >= MIN_RUNS_PER_WORKER:
+                break  # (a loaded machine must not turn a budget into "nothing explored")
             if os.path.exists(stop_path):
                 break
             seed = derive_seed(base_seed, check.PROPERTY, idx)
@@ -287,6 +291,15 @@ def run_batch(check_cls, tier: str, base_seed: int, seconds: float, workers: int
     signal.signal(signal.SIGTERM, on_term)
     signal.signal(signal.SIGINT, on_term)
 
+    if getattr(check_cls, "USES_TEMPLATE_DB", False):
+        # migrate one empty database here; every worker copies it (alembic takes seconds under load)
+        from . import schedsim
+
+        os.environ["VERIF_SCRATCH"] = os.path.join(root, "shared")
+        os.makedirs(os.environ["VERIF_SCRATCH"], exist_ok=True)
+        os.environ["VERIF_TEMPLATE_DB"] = schedsim.template_db()
+        schedsim._TEMPLATE = None
+        deadline = time.time() + seconds
     sys.stdout.flush()
     for wid in range(workers):
         out_path = os.path.join(root, f"out-{wid}.json")
@@ -434,8 +447,11 @@ def run_batch(check_cls, tier: str, base_seed: int, seconds: float, workers: int
     }
     if harness_errors:
         evidence["coverage"]["harness_errors"] = harness_errors[:5]
-    os.makedirs(os.path.join(VERIF_DIR, "evidence"), exist_ok=True)
-    ev_path = os.path.join(VERIF_DIR, "evidence", f"{prop}.json")
+    # (VERIF_EVIDENCE_DIR: used by tools/seeded_eval.sh so that runs against a deliberately
+    # broken tree do not overwrite the evidence of the real tree)
+    ev_dir = os.environ.get("VERIF_EVIDENCE_DIR") or os.path.join(VERIF_DIR, "evidence")
+    os.makedirs(ev_dir, exist_ok=True)
+    ev_path = os.path.join(ev_dir, f"{prop}.json")
     try:
         import jsonschema
 
